@@ -207,6 +207,52 @@ def body_web_step(c0, c1, target, body, cond):
     return (ab_after == ab_before, cls)
 
 
+def body_recreate(c0, warm_body, body1, body2, warm):
+    """Three-step history over the process-wide store cache: a collection is destroyed (DELETE) and re-created
+    at the same path (MKCALENDAR); the cached store object of the old collection must not resurrect anything."""
+    S = {"a.ics": c0}
+    if len(c0) == 0 or not SP.invariant(S):
+        return (True, "pre-invalid")
+    mweb.fresh_world(S, {"c.vcf": b"v1"})
+    app = mweb.make_app()
+    if warm:
+        # make the cached store object scan its UID map and index the old contents
+        mweb.call(app, "PUT", mweb.CAL + "/w.ics", body=warm_body, content_type="text/calendar")
+    mweb.call(app, "PROPFIND", mweb.CAL + "/", headers=[("Depth", "1")], xml=mweb.propfind_body("{DAV:}getetag"))
+    d = mweb.call(app, "DELETE", mweb.CAL + "/")
+    if d.status_class != "2xx":
+        return (True, "delete-refused")
+    g = mweb.call(app, "GET", mweb.CAL + "/a.ics")
+    if g.status_class != "404":
+        return (False, "member-survived-delete")
+    m = mweb.call(app, "MKCALENDAR", mweb.CAL)
+    if m.status_class != "2xx":
+        return (False, "recreate-refused")
+    obs = _web_state(app, False, "/")
+    if obs != {}:
+        return (False, "resurrected")
+    cur = {}
+    for name, body in (("a.ics", body1), ("b.ics", body2)):
+        want, cur2 = SP.put(cur, name, body)
+        r = mweb.call(app, "PUT", mweb.CAL + "/" + name, body=body, content_type="text/calendar")
+        if r.status_class != {"ok": "2xx", "invalid": "412", "duplicate": "412"}[want]:
+            return (False, "put-after-recreate:" + want)
+        cur = cur2
+    ok = _web_state(app, False, "/") == cur
+    import xandikos.web as Wb
+    Wb.open_store_from_path.cache_clear()
+    ok = ok and _web_state(mweb.make_app(), False, "/") == cur
+    return (ok, "recreated:%d" % len(cur))
+
+
+def h_recreate(c0: bytes, warm_body: bytes, body1: bytes, body2: bytes, warm: bool) -> bool:
+    """
+    pre: max(len(c0), len(warm_body), len(body1), len(body2)) <= ctx.b.blen
+    post: _
+    """
+    return run(body_recreate, c0, warm_body, body1, body2, warm)
+
+
 def h_web_step(c0: bytes, c1: bytes, target: int, body: bytes, cond: int) -> bool:
     """
     pre: len(c0) <= ctx.b.blen and len(c1) <= ctx.b.blen and len(body) <= ctx.b.blen
@@ -244,6 +290,13 @@ HARNESSES = [
                      "request is not acknowledged and neither the same store object nor a fresh one sees any change; "
                      "part = (back end, operation)",
             encodes=_store.STEP_ENCODES),
+    Harness("recreate", h_recreate, body_recreate, classes=["recreated:2", "recreated:1"], bounds=_B,
+            budget={"quick": 90, "thorough": 420}, per_path_timeout={"quick": 60, "thorough": 120},
+            describe="DELETE of a calendar collection, MKCALENDAR at the same path, then PUTs (one re-using the old "
+                     "member's UID): nothing of the old collection is visible through the cached store object",
+            encodes=["xandikos.web.CollectionSetResource.delete_member", "xandikos.web.StoreBasedCollection.destroy",
+                     "xandikos.store.git.GitStore.destroy", "xandikos.caldav.MkcalendarMethod.handle",
+                     "xandikos.web.open_store_from_path", "xandikos.store.git.GitStore._scan_uids"]),
     Harness("web_step", h_web_step, body_web_step,
             classes=[("PUT:2xx", ("PUT", False, "/")), ("PUT:412", ("PUT", True, "/dav/")), ("DELETE:2xx", ("DELETE", False, "/")),
                      ("DELETE:404", ("DELETE", True, "/")), ("DELETE:412", ("DELETE", False, "/")),
